@@ -5,6 +5,7 @@ import (
 	"go/ast"
 	"go/token"
 	"go/types"
+	"regexp"
 	"strings"
 
 	"golang.org/x/tools/go/packages"
@@ -823,6 +824,7 @@ func init() {
 var sizeDepTable = []struct{ fn, variable, quantity, why string }{
 	{"schemes/bgv.NewParameters", "nbQiMul", "LogN", "the tensoring product over the integers has log2(N) more bits than Q^2"},
 	{"schemes/bgv.newEvaluatorPrecomp", "levelQMul", "LogN", "the number of auxiliary primes needed at a level grows with log2(N)"},
+	{"ring.(SubRing).generateNTTConstants", "NInv", `\.N\b`, "the inverse transform is normalised by the number of coefficients (N, 2N for the conjugate-invariant transform), whatever the order of the root"},
 }
 
 func scanSizeDep(c *core.Ctx) []ob {
@@ -840,8 +842,15 @@ func scanSizeDep(c *core.Ctx) []ob {
 			info := pk.TypesInfo
 			defs := map[types.Object][]ast.Expr{}
 			ast.Inspect(fd.Body, func(x ast.Node) bool {
-				if as, ok := x.(*ast.AssignStmt); ok && len(as.Lhs) == len(as.Rhs) {
+				if as, ok := x.(*ast.AssignStmt); ok && len(as.Lhs) == len(as.Rhs) && (as.Tok == token.ASSIGN || as.Tok == token.DEFINE) {
 					for i, l := range as.Lhs {
+						// a field of the object under construction (`s.NInv = …`) is filed under the field
+						if se, ok := unparen(l).(*ast.SelectorExpr); ok {
+							if fo := info.Uses[se.Sel]; fo != nil {
+								defs[fo] = append(defs[fo], as.Rhs[i])
+								continue
+							}
+						}
 						if id := rootIdent(l); id != nil {
 							o := info.Defs[id]
 							if o == nil {
@@ -857,7 +866,7 @@ func scanSizeDep(c *core.Ctx) []ob {
 			})
 			var depends func(x ast.Node, depth int) bool
 			depends = func(x ast.Node, depth int) bool {
-				if strings.Contains(exprString(x.(ast.Expr)), e.quantity) {
+				if regexp.MustCompile(e.quantity).MatchString(exprString(x.(ast.Expr))) {
 					return true
 				}
 				if depth > 4 {
